@@ -365,4 +365,12 @@ def r17_7(ctx: Ctx) -> RuleResult:
     return r10_12(ctx, "R17.7", {"root_token": "$$", "fake_root_token": "^^^", "self_token": "%", "filter_context_token": "_ctx"})
 
 
-RULES = [r17_1, r17_2, r17_3, r17_4, r17_5, r17_6, r17_7]
+def r17_8(ctx: Ctx) -> RuleResult:
+    """Whether a (sub-)query starts with the fake root is read off the *token* the lexer produced - the lexer tries the
+    longer spelling first, so `%%` (root) and `%` (fake root) are told apart - never off the query text (= R13.6)."""
+    from .c13 import r13_6
+
+    return r13_6(ctx, "R17.8")
+
+
+RULES = [r17_1, r17_2, r17_3, r17_4, r17_5, r17_6, r17_7, r17_8]
